@@ -25,7 +25,7 @@ func init() {
 }
 
 func c15Rebind(c *core.Ctx) {
-	nh := c.N(150, 1500)
+	nh := c.N(150, 6000)
 	for idx := 0; idx < nh; idx++ {
 		if !c.Mine(idx) {
 			continue
